@@ -78,7 +78,9 @@ def r1_translation(rep, src, tier='quick'):
     mod = src.mod(M)
     mt = src.func(M + ':FilesParagraph.matches')
     rep.saw_func(mt)
-    modes = {c.func.attr for c in ast.walk(mt.node) if isinstance(c, ast.Call) and isinstance(c.func, ast.Attribute) and c.func.attr in ('match', 'fullmatch', 'search')}
+    from .. import normalize
+    mt_node, _inl = normalize.inline_helpers(mt)       # the match may sit in a private helper
+    modes = {c.func.attr for c in ast.walk(mt_node) if isinstance(c, ast.Call) and isinstance(c.func, ast.Attribute) and c.func.attr in ('match', 'fullmatch', 'search')}
     if len(modes) != 1:
         raise AnalysisError('%s: the match call on the pattern is not unique (%s)' % (mt.site, sorted(modes)))
     mode = modes.pop()
